@@ -65,7 +65,7 @@ def run(ctx, factor):
                 rep.violate("line-ends-change-the-stream", {"listing_1": r1["text"], "listing_2": crlf}, "equal streams",
                             {"stream_1": s1, "stream_2": s3})
         rep.case(case, s1[0] == "ok" and bool(r1["expected"]), tags=["edit-pair"])
-        if rep.violations and factor > 1:
+        if rep.has_new() and factor > 1:
             return
 
 
